@@ -63,6 +63,18 @@ def frame(n, variant, rot):
     return _FR[key]
 
 
+def alt_frame():
+    """Another frame with other level names and counts (for the second build)."""
+    if "alt" not in _FR:
+        n = 10
+        _FR["alt"] = pd.DataFrame({
+            "f": ["p", "q", "r", "s", "p", "q", "r", "s", "p", "q"], "g": ["u1", "u2", "u3"] * 3 + ["u1"],
+            "h": ["m", "n"] * 5, "k": [1, 2, 3, 4, 5] * 2, "x": np.arange(n) * 1.5, "z": np.arange(n)[::-1] * 0.5,
+            "y": np.arange(n) * 0.1, "yc": ["v", "u", "t", "v", "w"] * 2,
+        })
+    return _FR["alt"]
+
+
 ATOMS = {"f": "f", "g": "g", "x": "x", "z": "z", "k": "C(k)", "h": "h"}
 CATS = {"f", "g", "k", "h"}
 
@@ -208,21 +220,7 @@ def check_labels(labels, M, df, order, comp_names, what, problems, group=False, 
             problems.append(("level-count", f"{what}: only levels {lv} of {exp} appear for {var}"))
 
 
-def check_case(case, acc):
-    from formulae import design_matrices
-    from fmc.core import exc_sig
-
-    c = case["f"]
-    df, order = frame(case["n"], case["variant"], case["rot"])
-    f = formula_of(c)
-    acc.calls += 1
-    acc.traces += 1
-    try:
-        dm = design_matrices(f, df)
-    except Exception as e:
-        acc.case([f, case["n"], case["variant"]], "raises", sample=False)
-        acc.violation("design-exists", exc_sig(e), case, f"{f!r} raised {type(e).__name__}: {e}")
-        return
+def verify(dm, c, df, order):
     problems = []
     names = ["x", "z", "f", "g", "h", "C(k)", "yc", "y"]
     if c["common"] or c["icpt"]:
@@ -266,6 +264,35 @@ def check_case(case, acc):
             lvl = c["resp"][3:-1].strip("'")
             if list(rdf.columns) != [f"yc[{lvl}]"]:
                 problems.append(("label-form", f"response {c['resp']}: header {list(rdf.columns)}"))
+    return problems
+
+
+def check_case(case, acc):
+    from formulae import design_matrices
+    from fmc.core import exc_sig
+
+    c = case["f"]
+    df, order = frame(case["n"], case["variant"], case["rot"])
+    f = formula_of(c)
+    acc.calls += 1
+    acc.traces += 1
+    try:
+        dm = design_matrices(f, df)
+    except Exception as e:
+        acc.case([f, case["n"], case["variant"]], "raises", sample=False)
+        acc.violation("design-exists", exc_sig(e), case, f"{f!r} raised {type(e).__name__}: {e}")
+        return
+    problems = verify(dm, c, df, order)
+    # a later design built from the same formula text on another frame must not disturb this one
+    acc.calls += 1
+    try:
+        design_matrices(f, alt_frame())
+    except Exception:
+        pass
+    after = verify(dm, c, df, order)
+    if len(after) > len(problems):
+        extra = [m for m in after if m not in problems][:1]
+        problems.append(("design-unaffected-by-later-build", f"after building the same formula on another frame: {extra[0][1] if extra else after[0][1]}"))
     nontriv = bool(c["group"]) or any(len(t) > 1 and set(t) & CATS for t in c["common"])
     if problems:
         acc.case([f, case["n"], case["variant"]], "MISMATCH", sample=False)
